@@ -115,7 +115,7 @@ def o18_1(tier):
                     # ... and the closed form is linear: same areas and directions, pressures/tensions combined
                     ctx.ensure(ctx.close(Fc[r][c], al * Fa[r][c] + be * Fb[r][c]), f"closed form of entry ({r},{c}) is linear in (pressures, tensions)")
         return h
-    return [("cells=2,edges=3", mk(2, 3)), ("cells=1,edges=0", mk(1, 0)), ("isotropic,cells=3,edges=2", mk_iso(3, 2)), ("linear,cells=2,edges=1", mk_lin(2, 1))] + ([("linear,cells=2,edges=2", mk_lin(2, 2))] if tier != "quick" else [])
+    return [("cells=2,edges=3", mk(2, 3)), ("cells=1,edges=0", mk(1, 0)), ("isotropic,cells=3,edges=2", mk_iso(3, 2)), ("linear,cells=2,edges=1", mk_lin(2, 1))] + ([("linear,cells=3,edges=1", mk_lin(3, 1))] if tier != "quick" else [])
 
 
 @obligation("O18.2", ["C18", "C10"], [S + ":get_big_edges_df", S + ":get_cells_df"],
